@@ -372,11 +372,13 @@ class TaskManager(SingletonLogging):
     def process_task(self, task):
         if _debug: TaskManager._debug("process_task %r", task)
 
-        # process the task
-        task.process_task()
-
-        # see if it should be rescheduled
-        if isinstance(task, RecurringTask):
-            task.install_task()
-        elif isinstance(task, OneShotDeleteTask):
-            del task
+        # process the task, a recurring task is rescheduled even if this
+        # firing raised an exception (which is passed along to the caller)
+        try:
+            task.process_task()
+        finally:
+            # see if it should be rescheduled
+            if isinstance(task, RecurringTask):
+                task.install_task()
+            elif isinstance(task, OneShotDeleteTask):
+                del task
